@@ -84,6 +84,7 @@ class DiffPart:
         rnd = random.Random(seed * 7919 + 17)
         thorough = tier == "thorough"
         self.bulk(Harness(exe), rnd, thorough, verdict, cov, driver)
+        self.policies(Harness(exe), verdict, cov, driver)
         self.findif_par(Harness(exe), rnd, thorough, verdict, cov, driver)
         self.findif_seq(Harness(exe), rnd, thorough, verdict, cov, driver)
         self.witness(Harness(exe), thorough, verdict, cov, driver)
@@ -181,6 +182,52 @@ class DiffPart:
                 verdict.add("indexed_for: indices are not 0..n-1 each once in order", f"{req} -> {real}", dict(stream="diff", request=req, real=real))
         if len(out) != len(ireqs):
             verdict.add("indexed_for: harness aborted", err[-600:], dict(stream="diff", stderr=err[-1500:]))
+
+    # ---- execution policies: what a policy-honouring bulk source sees below bulk_transform chains
+    POL = {"seq": (False, False), "unseq": (False, True), "par": (True, False), "par_unseq": (True, True)}
+
+    def policies(self, h, verdict, cov, driver):
+        names = list(self.POL)
+        inv = {v: k for k, v in self.POL.items()}
+        recv_pol = dict(self.POL, join=self.POL["par_unseq"], default=self.POL["seq"])   # bulk_join.hpp / get_execution_policy.hpp
+        reqs = [(r, [p1]) for r in list(self.POL) + ["join", "default"] for p1 in names]
+        reqs += [(r, [p1, p2]) for r in ("join", "par") for p1 in names for p2 in names]
+        lines = ["policy " + r + " " + " ".join(ps) for r, ps in reqs]
+        out, err, rc = h.batch(lines)
+        if len(out) != len(lines):
+            bad = lines[len(out)] if len(out) < len(lines) else "?"
+            verdict.add("bulk_transform: harness aborted (sanitizer / crash) in the policy probe", f"request `{bad}`: {err[-600:]}", dict(stream="diff", request=bad, stderr=err[-1500:]))
+            return
+        mism = 0
+        for (r, ps), req, real in zip(reqs, lines, out):
+            cov["evaluations"] += 1
+            f = kv(real)
+            # the STATEMENT of Props/C17 bulk_transform_policy_is_meet / chain_policy_is_meet, evaluated directly
+            par, unseq = recv_pol[r]
+            for pn in ps:
+                par, unseq = par and self.POL[pn][0], unseq and self.POL[pn][1]
+            want = inv[(par, unseq)]
+            if f.get("seen") != want:
+                verdict.add("bulk_transform: advertised execution policy is not the meet of the function's and the receiver's policy",
+                            f"{req}: the source saw `{f.get('seen')}`, the meet is `{want}`  ({real})",
+                            dict(stream="diff", request=req, real=real, receiver=r, function_policies=ps, seen=f.get("seen"), meet=want))
+            for k, pn in enumerate(ps, 1):
+                if int(f.get(f"overlap{k}", 0)) > 1 and not self.POL[pn][0]:
+                    verdict.add("bulk_transform: function registered with a non-parallel policy invoked concurrently by a policy-honouring source",
+                                f"{req}: function {k} (policy {pn}) ran on {f.get(f'overlap{k}')} threads at once ({real})",
+                                dict(stream="diff", request=req, real=real, function=k, function_policy=pn))
+            if f.get("term") != "value" or f.get("calls") != "4":
+                verdict.add("bulk_transform: probe did not complete with value after 4 calls", f"{req} -> {real}", dict(stream="diff", request=req, real=real))
+            model = driver.ask("ask bulk policy | chain " + r + " " + " ".join(ps))
+            cov["traces_validated_against_impl"] += 1
+            if kv(model).get("seen") != f.get("seen"):
+                mism += 1
+                if mism == 1:
+                    verdict.add("bulk_transform: advertised policy differs from the generated Lean model", f"{req}: real `{real}` model `{model}`",
+                                dict(stream="diff", request=req, real=real, model=model, broken="translator correspondence Generated/BulkPolicy.lean vs bulk_transform.hpp / bulk_join.hpp / get_execution_policy.hpp"))
+            elif f.get("threads") == "2" or len(ps) == 2:
+                cov["distinct_nontrivial"] += 1
+        cov["samples"].append(dict(stream="diff/policy", request=lines[2], real=out[2]))
 
     # ---- find_if
     def distances(self, rnd, thorough):
@@ -327,6 +374,9 @@ class BulkRtPart:
     (thread ids dropped) must be an execution of the generated loop model for SOME stop point."""
     name = "bulk_rt"
     # (scenario, n (None = chunk size + 2), quick DFS cap: the one-worker scenarios are exhausted below 1100 executions)
+    # policy scenarios: (scenario, receiver, function policy); history "seen <policy> ; value"
+    POLICY_SCENARIOS = [("policy_seq_over_join", "join", "seq"), ("policy_unseq_over_par_unseq", "par_unseq", "unseq"),
+                        ("policy_par_over_join", "join", "par"), ("policy_par_over_seq", "seq", "par")]
     SCENARIOS = [("pool_bulk_stop", 3, 500), ("pool_bulk_one_worker", 8, 1100), ("pool_bulk_two_chunks", None, 500), ("pool_bulk_empty", 0, 1100), ("pool_composed", None, 500)]
 
     def run(self, tier, seed, verdict, cov, driver):
@@ -377,6 +427,33 @@ class BulkRtPart:
                 verdict.add(f"{self.name}/{scn}: history is not an execution of the generated bulk loop model", f"{len(rejected)} of {len(seen)} distinct histories rejected ({ans[:300]})",
                             dict(stream=self.name, scenario=scn, schedule=sched, history=hh.split(" ; "), model_answer=ans,
                                  broken="correspondence harness/rt/scn_c17.cpp vs Proto/Bulk.lean (Generated/BulkLoop.lean)", replay_cmd=f"{exe} --scenario {scn} --replay {sched}"), found_input=False)
+        for scn, recv, fpol in self.POLICY_SCENARIOS:
+            runs = [vlib.run_rt(exe, scn, "dfs", 2 if quick else 3, 600 if quick else 8000, seed),
+                    vlib.run_rt(exe, scn, "random", 0, 100 if quick else 1000, seed)]
+            seen = {}
+            for r in runs:
+                st = r["stats"]
+                cov["evaluations"] += st.get("executions", 0)
+                cov["with_preemption"] += st.get("with_preemption", 0)
+                for sched, why, hh in r["fails"]:
+                    verdict.add(f"{self.name}/{scn}: {why.split(' && ')[0][:120]}", why,
+                                dict(stream=self.name, scenario=scn, schedule=sched, history=hh.split(" ; "), replay_cmd=f"{exe} --scenario {scn} --replay {sched}"))
+                for cnt, sched, hh in r["hist"]:
+                    seen.setdefault(hh, sched)
+            cov["exhaustive_dfs"][f"{self.name}/{scn}"] = bool(runs[0]["stats"].get("exhausted", 0))
+            cov["distinct_histories"][f"{self.name}/{scn}"] = len(seen)
+            model = driver.ask(f"ask bulk policy | chain {recv} {fpol}")
+            want = [f"seen {kv(model).get('seen')}", "value"]
+            for hh, sched in seen.items():
+                evs = [re.sub(r"^T\d+ ", "", e) for e in hh.split(" ; ") if e]
+                cov["traces_validated_against_impl"] += 1
+                if evs == want:
+                    cov["distinct_nontrivial"] += 1
+                elif not any(v[0].startswith(f"{self.name}/{scn}: history") for v in verdict.violations):
+                    cov["rejected_histories"] += 1
+                    verdict.add(f"{self.name}/{scn}: history is not admitted by the generated policy model", f"history `{hh}`, the model ({model}) admits `{' ; '.join(want)}`",
+                                dict(stream=self.name, scenario=scn, schedule=sched, history=hh.split(" ; "), model_answer=model,
+                                     broken="correspondence harness/rt/scn_c17.cpp vs Generated/BulkPolicy.lean", replay_cmd=f"{exe} --scenario {scn} --replay {sched}"))
         cov["parts_wall_s"][self.name] = round(time.time() - t0, 1)
 
 
@@ -458,10 +535,11 @@ def run(tier, seed, replay=None):
              "non-trivial = with a stop point or a match, agreeing with the model",
         assumptions=["bulk count type modelled as Nat without wrap-around (count + chunk size representable); negative signed counts not modelled",
                      "find_if distances are non-negative; iterators are identified with offsets from begin (random access, as the code itself assumes for par)",
+                     "execution policies: the library's only bulk source (bulk_schedule) is sequential, so 'never concurrently beyond what the policy permits' is checked as: the policy ADVERTISED to the source is the meet (theorem + real decltype over all pairs) and a policy-honouring probe source never overlaps a non-parallel function",
                      "statement structure of set_value / find_if_helper outside the arithmetic holes is pinned literally by the translator skeleton (any other edit = broken tie)",
                      "bulk_schedule has no scheduler-specific customisation in the tree (default sender only): index loop runs on one worker; sequentially consistent atomics in the rt runs",
                      "bulk_schedule launches the chunk lambdas in index order on one thread (true for the only bulk_schedule implementation in the tree): find-first relies on it, as the code's own comment says"],
         trusted_extra=["tools/cxx2lean_bulk.py skeleton matcher + expression printer (validated per run by the differential part)", "harness/c17/diff_c17.cpp recording iterator / receivers",
                        "harness/rt (cooperative scheduler)", "g++ 12 -fsanitize=address,undefined"],
-        explanation="Theorems (Props/C17, all n / all distances / all predicates): bulk_visits_each_once_in_order, bulk_stop_cuts_at_chunk_boundary, no_next_after_terminal, chunks_tile_range, "
+        explanation="Theorems (Props/C17, all n / all distances / all predicates / all 16 policy pairs and chains of any length): bulk_transform_policy_is_meet, chain_policy_is_meet, bulk_visits_each_once_in_order, bulk_stop_cuts_at_chunk_boundary, no_next_after_terminal, chunks_tile_range, "
                     "find_if_returns_first, find_if_seq_returns_first (+ history section about the hand-transcribed pre-fix arithmetic). Tie: translator (regenerated every run) + differential runs + regression replay of the former defect distances (recording iterator, guard page).")
